@@ -8,6 +8,8 @@ from .common import Proxy, share
 
 def check(ctx):
     p = ctx.prog
+    # all arithmetic behind this property happens in the numeric type T of the instantiation
+    single_precision(ctx, 'prec.single_type', ['hep::discrete_distribution::', 'hep::multi_channel_iteration', 'hep::vegas_icdf', 'hep::vegas_iteration', 'hep::plain_iteration'], 1)
     ctx.assume('user map / integrand are opaque: what they do with the buffers they are handed is '
                'outside the code base')
     # ---------------------------------------------------------------- R1 multi-channel call sequence
